@@ -384,3 +384,7 @@ mod tests {
         assert_eq!(MIN_SIZE, chunk.len());
     }
 }
+
+#[cfg(kani)]
+#[path = "/verif/harness/chunker_rabin.rs"]
+pub(crate) mod verif_harness;
